@@ -53,6 +53,8 @@ def run(chk, ctx) -> None:
     _effective_stack(chk, ctx)
     _simple_effects(chk, ctx)
     _turn(chk, ctx)
+    from .cover import all_in_rule
+    all_in_rule(chk, ctx)
 
 
 def _cmp_returns(chk, ctx, rule, name, cases, detail):
